@@ -236,6 +236,9 @@ func (h *harness) record(c *engine.Case, v verdict, source string) {
 		if c.Mutation {
 			h.run.Count("op:mutation")
 		}
+		if n := len(v.Real.DirectiveErrors); n > 0 {
+			h.run.Count(fmt.Sprintf("uncoercible directive argument: error reported %d×", n))
+		}
 		if c.CancelAt > 0 {
 			h.run.Count(fmt.Sprintf("cancel: fields reached after the cancellation=%d", min(v.cancelled, 4)))
 		}
